@@ -23,7 +23,7 @@ from pyvc.interp import Interp, PathState
 from pyvc.rulecheck import RULE_CONFIGS, install_contracts, make_interp
 from pyvc.values import NAN, IdStr, Num, Obj, OutOfSubset, PyRaise, zreal
 
-from .common import REPO, Result, load_known, match_known, run_venv
+from .common import REPO, Result, load_known, match_known, run_venv, tierb_json
 
 K = {"+": "AddExpression", "-": "SubtractExpression", "*": "MultiplyExpression", "/": "DivideExpression", "^": "PowerExpression", "=": "EqualExpression",
      "neg": "NegateExpression"}
@@ -291,6 +291,46 @@ def cases() -> List[Case]:
             return valid(zreal(v) == want), f"constant {v}"
 
         out.append(Case(f"constants_simplify/c1 {op} c2", "constants_simplify", build, True, shape, assume))
+
+    # ---- constant arithmetic, documented chained arrangements: the two constants of a same-operator chain
+    # are folded, every other operand stays (up to order and grouping)
+    chained = [
+        ("chained right", ("+", "*"), lambda op: (op, ("const", "c1"), (op, ("const", "c2"), "t")), ["t"]),
+        ("chained right deep", ("+", "*"), lambda op: (op, ("const", "c1"), (op, (op, ("const", "c2"), "t"), "u")), ["t", "u"]),
+        ("const * var * const", ("*",), lambda op: (op, (op, ("const", "c1"), ("var", "v")), ("const", "c2")), [("ident", "v")]),
+        ("chained right left", ("*",), lambda op: (op, (op, ("const", "c1"), "t"), (op, ("const", "c2"), "u")), ["t", "u"]),
+        ("chained right left left", ("*",), lambda op: (op, (op, ("const", "c1"), "t"), (op, (op, ("const", "c2"), "u"), "w")), ["t", "u", "w"]),
+        ("chained left left right", ("*",), lambda op: (op, (op, "t", (op, ("const", "c1"), "u")), (op, ("const", "c2"), "w")), ["t", "u", "w"]),
+    ]
+    for label, ops_, mk, rest in chained:
+        for op in ops_:
+            def build(B, op=op, mk=mk, rest=rest):
+                n = B.node(mk(op), name="node")
+                for r in rest:
+                    o = B.named[r]
+                    if len(o.kinds) > 1:
+                        # an operand that is neither a constant nor a chain of the same operator (else another documented form applies)
+                        B.I.refine_kinds(o, o.kinds - frozenset(["ConstantExpression", K[op]]))
+                return n, n
+
+            def shape(B, node, result, valid, op=op, rest=rest):
+                if not isinstance(result, Obj):
+                    return False, f"result {result!r}"
+                opers = flat_nodes(result, K[op])
+                consts = [o for o in opers if is_kind(o, "ConstantExpression")]
+                others = [orig(o) for o in opers if not is_kind(o, "ConstantExpression")]
+                want = [B.named[r] for r in rest]
+                if len(consts) != 1:
+                    return False, f"{len(consts)} constants among the operands {opers}"
+                if sorted(map(id, others)) != sorted(map(id, want)):
+                    return False, f"other operands {others} instead of {want}"
+                v = const_value(consts[0])
+                a, b = B.named[("const", "c1")].ghost["cval"], B.named[("const", "c2")].ghost["cval"]
+                if v is None:
+                    return False, f"constant without a value: {consts[0]}"
+                return valid(v == (a + b if op == "+" else a * b)), f"folded constant {v}"
+
+            out.append(Case(f"constants_simplify/{label} ({op})", "constants_simplify", build, True, shape))
 
     # ---- distribute: a(b + c) -> ab + ac (either operand order)
     for where in ("right", "left"):
@@ -610,7 +650,7 @@ def run(tier: str, seed: int) -> int:
     if p.returncode not in (0, 1):
         R.engine_errors.append("tier-B failed: " + p.stderr[-300:])
     else:
-        bounded = json.loads(p.stdout)
+        bounded = tierb_json(p, R)
         for f in bounded.get("failures", [])[:8]:
             k = match_known(known, "C08", {"cfg": f.get("cfg", ""), "clause": f["clause"], "shape": {}, "cases": [], "detail": f["detail"]})
             if k is not None:
